@@ -240,7 +240,7 @@ def read_ndjson(path):
     return out
 
 
-def materialise_and_judge(scs, tags=""):
+def materialise_and_judge(scs, tags="", l2=False):
     """Run the real peg + generated parsers on the scenarios and let TLC judge.
     Returns (mismatch records, stat records, tlc info)."""
     work = scratch("verif-corpus-")
@@ -252,7 +252,7 @@ def materialise_and_judge(scs, tags=""):
     peg = build_peg(tags)
     obs = os.path.join(work, "obs.ndjson")
     r = subprocess.run([driver_bin(), "corpus", "-scen", os.path.join(sdir, "scen_*.ndjson"), "-peg", peg,
-                        "-work", work, "-out", obs, "-j", str(NCPU), "-gocache", gocache()],
+                        "-work", work, "-out", obs, "-j", str(NCPU), "-gocache", gocache()] + (["-verif"] if tags == "verif" else []),
                        capture_output=True, text=True, env=go_env())
     if r.returncode != 0:
         raise Infra("driver corpus failed:\n" + r.stdout + r.stderr)
@@ -281,16 +281,40 @@ def materialise_and_judge(scs, tags=""):
         raise Infra(f"judge judged {len(stats)} units, expected {sum(len(s['optsets']) for s in scs)}")
     mis = [x for x in recs if x["kind"] == "mis"]
     by_id = {s["id"]: s for s in scs}
+    info = dict(step="judge", states=j["states"], wall=round(j["wall"], 1))
+    if l2:
+        # L2: validate the recorded machine-step events against PegVM
+        tdir = os.path.join(work, "l2")
+        os.makedirs(tdir)
+        t = run_tlc("TraceVM", "TraceVM.cfg", env=dict(JUDGE_IN=joined, JUDGE_OUT=tdir), timeout=3600, check=False)
+        if t["rc"] != 0 or "No error has been found" not in t["out"]:
+            raise Infra("TraceVM failed (a PegVM invariant or the trace specification itself):\n" + t["out"][-3000:])
+        for p in sorted(glob.glob(os.path.join(tdir, "l2_*.ndjson"))):
+            for x in read_ndjson(p):
+                x["prop"] = "L2"
+                x["kind"] = "mis"
+                mis.append(x)
+        m0 = re.search(r"(\d+) distinct state", t["out"])
+        ntr = 0
+        with open(joined) as fh:
+            for line in fh:
+                rec = json.loads(line)
+                for u in rec["units"]:
+                    if u["opt"] == "":
+                        ntr += sum(1 for r in u["runs"] if "evs" in r and r["pn"] == "")
+        info = dict(info, l2_states=t["states"], l2_distinct=t["distinct"], l2_traces=ntr, l2_wall=round(t["wall"], 1),
+                    l2_events=0)
     for m in mis:
         m["text"] = by_id[m["id"]]["text"]
     shutil.rmtree(work, ignore_errors=True)
-    return mis, stats, dict(step="judge", states=j["states"], wall=round(j["wall"], 1))
+    return mis, stats, info
 
 
-def generate(family, n, sd):
+def generate(family, n, sd, evs=False):
     work = scratch("verif-gen-")
     chunks = min(NCPU, max(1, n // 4))
-    g = run_tlc("GenCorpus", "GenCorpus.cfg", env=dict(GEN_FAMILY=family, GEN_SEED=sd, GEN_N=n, GEN_CHUNKS=chunks, GEN_OUT=work))
+    g = run_tlc("GenCorpus", "GenCorpus.cfg", env=dict(GEN_FAMILY=family, GEN_SEED=sd, GEN_N=n, GEN_CHUNKS=chunks, GEN_OUT=work,
+                                                        GEN_EVS="1" if evs else "0"))
     scs = []
     for p in sorted(glob.glob(os.path.join(work, "scen_*.ndjson"))):
         scs += read_ndjson(p)
@@ -301,7 +325,7 @@ def generate(family, n, sd):
     return scs, dict(step="gen", states=g["states"], wall=round(g["wall"], 1))
 
 
-def corpus_pipeline(family, n, sd, tags=""):
+def corpus_pipeline(family, n, sd, tags="", l2=False):
     """Gen (TLC) -> driver (real peg, real parsers) -> Judge (TLC) for one family; cached per
     (/repo content, machinery content, family, n, seed)."""
     key = f"corpus_{family}_{n}_{sd}_{tags or 'stock'}_{harness_hash()}.json"
@@ -310,8 +334,8 @@ def corpus_pipeline(family, n, sd, tags=""):
         if os.path.exists(path):
             with open(path) as fh:
                 return json.load(fh)
-        scs, ginfo = generate(family, n, sd)
-        mis, stats, jinfo = materialise_and_judge(scs, tags)
+        scs, ginfo = generate(family, n, sd, evs=l2)
+        mis, stats, jinfo = materialise_and_judge(scs, tags, l2=l2)
         by_id = {s["id"]: s for s in scs}
         for m in mis:
             m["family"], m["seed"] = family, sd
@@ -407,6 +431,41 @@ def model_check(module, cfg, timeout=1800, expect_ok=True):
                    tail=r["out"][-1500:] if not ok else "")
         if expect_ok and not ok:
             raise Infra(f"L0 model check {cfg} failed (specification error, not a verdict about the code):\n" + r["out"][-3000:])
+        with open(key, "w") as fh:
+            json.dump(res, fh)
+        return res
+
+
+def l0_pegvm(family, n, sd, maxin=60):
+    """L0: exhaustive TLC exploration of PegVM over a generated scenario file (no code involved).
+    Returns states/transitions and the per-action coverage counts."""
+    key = os.path.join(CACHE, f"l0vm_{family}_{n}_{sd}_{maxin}_{harness_hash()}.json")
+    with Lock("l0vm-" + family):
+        if os.path.exists(key):
+            with open(key) as fh:
+                return json.load(fh)
+        scs, _ = generate(family, n, sd)
+        work = scratch("verif-l0-")
+        scen = os.path.join(work, "scen.ndjson")
+        with open(scen, "w") as fh:
+            for sc in scs:
+                fh.write(json.dumps(sc) + "\n")
+        r = run_tlc("MCPegVM", "MC_VM.cfg", env=dict(MC_SCEN=scen, MC_MAXIN=maxin), extra=["-coverage", "1"], timeout=3600, check=False)
+        ok = r["rc"] == 0 and "No error has been found" in r["out"]
+        if not ok:
+            raise Infra("L0 PegVM model check failed (specification-level, not a verdict about the code):\n" + r["out"][-3000:])
+        acts = {}
+        src = open(os.path.join(SPEC, "MCPegVM.tla")).read().split("\n")
+        for m in re.finditer(r"^<Next line \d+, col \d+ to line \d+, col \d+ of module MCPegVM \((\d+) \d+ \d+ \d+\)>: (\d+):(\d+)", r["out"], re.M):
+            line = src[int(m.group(1)) - 1]
+            nm = re.search(r"\\/ \((\w+)", line)
+            if nm:
+                acts[nm.group(1)] = acts.get(nm.group(1), 0) + int(m.group(3))
+        if not acts:
+            raise Infra("could not read per-action coverage from TLC output")
+        res = dict(family=family, scenarios=len(scs), states=r["distinct"], transitions=r["states"], wall=round(r["wall"], 1),
+                   actions=acts, actions_never_taken=sorted(a for a, c in acts.items() if c == 0))
+        shutil.rmtree(work, ignore_errors=True)
         with open(key, "w") as fh:
             json.dump(res, fh)
         return res
